@@ -2,50 +2,83 @@
 
 Workload = state-space exploration used as a generator (every admissible operation x target x
 flag setting from every small tree, successor states de-duplicated by ordered signature, to a
-bounded depth) + long random histories on one live object (hidden state such as bipartition
-caches and stale parent pointers of detached nodes is carried along).
+bounded depth; a sample of the successors is continued on the LIVE object, always when the operation
+left detached nodes or an undo record behind) + long random histories on one live object (hidden state
+such as bipartition caches, edge maps a caller has read and stale parent pointers of detached nodes is
+carried along; detached nodes are handed back to later operations).
 
 After EVERY operation, whether it returned or raised, the monitors judge
-  well-formed      arborescence walker on the raw fields + every iterator visits exactly the reachable nodes
+  well-formed      arborescence walker on the raw fields
+  traversals       every public node / edge iterator and list accessor of Tree and of the seed Node, without and
+                   with a filter_fn, yields exactly the reachable nodes / edges of its class (_c03_lib.traversals;
+                   evaluated once per distinct ordered shape and on a random 1% of the other steps - the
+                   iterators read nothing but the raw fields the walker has just validated)
   exception        only the operation's documented errors may escape
-  leaf-multiset    multiset of taxon-bearing leaves changes exactly by what the operation was asked to remove/add
-  bipartitions     if update_bipartitions was requested on a tree whose encoding was current: every edge's
-                   (leafset, split) mask equals the reference value for the taxa below it and the encoding list
-                   is exactly the edges' bipartition objects (this is what a fresh encoding yields)
+  leaf-multiset    multiset of taxon-bearing leaves changes exactly by what the operation was asked to remove/add;
+                   a node that stays in the tree and merely changes between leaf and internal takes its taxon
+                   into / out of the multiset (a taxon leaf may turn internal only where the operation was asked
+                   to attach or re-seed)
+  bipartitions     if update_bipartitions was requested on a tree whose encoding was current: the encoding list
+                   exists, every edge's (leafset, split) mask equals the reference value for the taxa below it and
+                   the encoding list is exactly the edges' bipartition objects (this is what a fresh encoding
+                   yields); the edge maps are read as a caller reads them (they were read before the operation)
 
-Soundness limits (admissible calls only): targets belong to the tree; add/insert/set_child_nodes/parent setter
-receive new or detached nodes, never an ancestor; attaching below a taxon-bearing leaf is generated but the
-multiset clause is then adjusted (that leaf stops being a leaf); reseed_at/reroot_at_node get internal targets;
-reroot_at_edge internal edges; reroot_at_midpoint only with >= 2 leaves, a distinct taxon on every leaf and a length
+Soundness limits (admissible calls only): targets belong to the tree; add/insert/set_child_nodes/parent setter/
+Edge.tail_node setter receive new nodes, new small subtrees, nodes detached earlier in the same history (whole
+detached subtrees that share no node with the tree) or a node that already is a child of the target, never an
+ancestor; reseed_at/reroot_at_node also get leaf targets and reroot_at_edge terminal edges (own key discriminator:
+the docstrings speak of internal nodes/edges, the code has a branch for leaves);
+reroot_at_midpoint only with >= 2 leaves, a distinct taxon on every leaf and a length
 on every non-root edge; Edge.invert only on edges whose tail is not the seed (the Edge cannot fix the tree's seed
 pointer - reseed_at does) and without update_bipartitions (an Edge has no access to the namespace);
-seed_node is assigned parentless nodes."""
+seed_node is assigned parentless nodes or (documented splice) a node of the tree itself; reinsert_nodes only directly
+after the reversible_remove_child whose record it gets (its documented precondition); shuffle_taxa only with distinct
+taxa on the shuffled nodes; the Node.edge / Edge.head_node setters get a brand-new Edge for a node of the tree (nothing
+is asked to be removed)."""
 import random
+import warnings
 
 from .. import ref, gen, bridge, core
 from ..mon import arbor
 from ..mon.budget import budget, StepBudgetExceeded
 from . import C01
+from . import _c03_lib as L
 
 PROP = "C03"
-LEVEL_TEXT = 'After every operation of explored (all admissible op x target x flags from every small tree, successor states deduplicated, depth 2/3) and random (30 ops on one live object) histories the arborescence walker, the exception allow-list, the leaf-multiset delta and the bipartition-freshness oracle are evaluated - also when the operation raised. Each operation runs under a JUMP step budget, so non-termination is a verdict. Evidence lists distinct states and (state, op) transitions observed.'
+LEVEL_TEXT = 'After every operation of explored (all admissible op x target x flags from every small tree incl. trees with taxa on internal nodes, duplicate taxa and a root length, successor states deduplicated, depth 2/3, sampled continuation on the live object) and random (30 ops on one live object, detached nodes re-used) histories the arborescence walker, the traversal battery (every public node/edge iterator against the reachable sets), the exception allow-list, the leaf-multiset delta and the bipartition-freshness oracle (encoding list must exist; edge maps read as a caller would) are evaluated - also when the operation raised. Each operation runs under a JUMP step budget, so non-termination is a verdict. Evidence lists distinct states and (state, op) transitions observed.'
 LEVEL_NOTE = 'Trusted: the walker (raw fields only), the per-operation documented-error allow-list built from docstrings/raise statements, the admissibility rules listed in the module docstring.'
 LEVEL = "exploration"
-TECHNIQUE = "runtime monitoring: arborescence walker + leaf-multiset and bipartition-freshness oracles after every operation of explored/random histories"
-RULE = ("bounded exploration of operation histories from every tree with <= 3 (quick) / <= 4 (thorough) leaves x rooting x "
-        "{no, unit} lengths with all admissible (operation, target, flags), successor states deduplicated by ordered signature; "
-        "plus random histories of 30 operations on random trees. non-trivial/distinct = distinct (state signature, operation descriptor) transition")
+TECHNIQUE = "runtime monitoring: arborescence walker + traversal battery + leaf-multiset and bipartition-freshness oracles after every operation of explored/random histories"
+RULE = ("bounded exploration of operation histories from every tree with <= 3 (quick) / <= 4 (thorough) leaves (plus trees with taxa on "
+        "internal nodes / the root, duplicate leaf taxa, a root edge length) x rooting x "
+        "{no, unit} lengths with all admissible (operation, target, flags, argument kind), successor states deduplicated by ordered signature, "
+        "a sample continued on the live object (always after a detaching operation); "
+        "plus random histories of 30 operations on random trees with a pool of detached nodes. "
+        "non-trivial/distinct = distinct (state signature, operation descriptor) transition")
 REACH = ["_node:Node.add_child", "_node:Node.insert_child", "_node:Node.remove_child", "_node:Node._set_parent_node",
          "_tree:Tree.reseed_at", "_tree:Tree.collapse_basal_bifurcation", "_tree:Tree.suppress_unifurcations",
          "_edge:Edge.invert", "_edge:Edge.collapse", "_tree:Tree.prune_taxa", "_tree:Tree.filter_leaf_nodes",
          "_tree:Tree.prune_leaves_without_taxa", "_tree:Tree.resolve_polytomies", "_tree:Tree.encode_bipartitions",
          "_tree:Tree.collapse_unweighted_edges", "_tree:Tree.to_outgroup_position", "_tree:Tree.reroot_at_midpoint",
          "_node:Node.collapse_clade", "_node:Node.collapse_neighborhood", "_node:Node.collapse_conflicting",
-         "_tree:Tree.polytomize_root", "_tree:Tree.shuffle_taxa", "_tree:Tree.prune_subtree", "_tree:Tree.retain_taxa"]
+         "_tree:Tree.polytomize_root", "_tree:Tree.shuffle_taxa", "_tree:Tree.prune_subtree", "_tree:Tree.retain_taxa",
+         "_node:Node.reversible_remove_child", "_node:Node.reinsert_nodes", "_node:Node.set_children",
+         "_tree:Tree.delete_outdegree_one_nodes", "_tree:Tree.encode_splits", "_tree:Tree.update_splits",
+         "_edge:Edge._set_tail_node", "_tree:Tree._set_is_unrooted", "_tree:Tree._set_seed_node",
+         "_tree:Tree.preorder_edge_iter", "_tree:Tree.postorder_edge_iter", "_tree:Tree.levelorder_edge_iter",
+         "_node:Node.inorder_iter", "_node:Node.apply"]
 MIN_EVENTS = {"op-applied": (20000, 400000), "walker-ok": (20000, 400000), "multiset-judged": (15000, 300000),
-              "bipartitions-judged": (3000, 60000), "documented-error-seen": (50, 500), "history-completed": (100, 3000)}
+              "bipartitions-judged": (3000, 60000), "documented-error-seen": (50, 500), "history-completed": (100, 3000),
+              "traversals-judged": (4000, 100000), "traversal-compared": (400000, 9000000),
+              "live-continuation-step": (20000, 600000), "op-on-leftovers-of-the-history": (10000, 300000),
+              "edge-maps-read-before-op": (80000, 2000000), "reinsert-judged": (1000, 35000),
+              "multiset-judged:internal-taxon-node-became-leaf": (1000, 40000),
+              "multiset-judged:taxon-leaf-became-internal": (4000, 130000),
+              "history-with-internal-or-duplicate-taxa": (60, 2000)}
 ASSUMPTIONS = ["walker reads only _seed_node/_child_nodes/_parent_node/_edge/_head_node",
-               "documented-error allow-list per operation was built from docstrings and explicit raise statements"]
+               "documented-error allow-list per operation was built from docstrings and explicit raise statements",
+               "the public iterators read only the raw child/parent/edge fields, so a traversal verdict is a function of the ordered shape "
+               "(the battery is evaluated once per distinct shape of <= 20 nodes per process, on 30% of the larger new shapes and on a 1% sample of the other steps)"]
 CASE_TIMEOUT = 120
 
 
@@ -70,6 +103,16 @@ class T(object):
     def leafbag(self):
         return sorted(ref.leaf_taxa(self.spec))
 
+    def taxleaves(self):
+        return dict((id(nd), s[0]) for s, nd in zip(self.snodes, self.nodes) if not s[3] and s[0] is not None)
+
+    def internal_taxa(self):
+        return sorted(s[0] for s in self.snodes if s[3] and s[0] is not None)
+
+
+def all_taxa(spec):
+    return [n[0] for n in ref.preorder(spec) if n[0] is not None]
+
 
 def _flags(names, exhaustive, rng, cap=2):
     combos = [{}]
@@ -82,16 +125,19 @@ def _flags(names, exhaustive, rng, cap=2):
 
 USC = ("update_bipartitions", "suppress_unifurcations", "collapse_unrooted_basal_bifurcation")
 US = ("update_bipartitions", "suppress_unifurcations")
+ARGFORMS = ("list", "set", "tuple", "generator", "namespace")
+SETCHILD_MODES = ("reverse", "drop-first", "plus-new", "own-iterator", "tuple-reversed", "generator", "plus-own-child")
 
 
-def enumerate_ops(t, rng, exhaustive):
+def enumerate_ops(t, rng, exhaustive, H=None):
     """all admissible operation descriptors on the current tree (sampled when not exhaustive)."""
     out = []
     n = len(t.nodes)
     internal = [i for i in range(n) if t.nodes[i]._child_nodes]
+    leafidx = [i for i in range(1, n) if not t.nodes[i]._child_nodes]
     nonroot = list(range(1, n))
-    leaves_tax = [i for i in range(n) if not t.nodes[i]._child_nodes and t.nodes[i].taxon is not None]
     labels = t.leafbag()
+    inttax = t.internal_taxa()
 
     def pick(seq, k):
         seq = list(seq)
@@ -106,6 +152,12 @@ def enumerate_ops(t, rng, exhaustive):
             add("reseed_at", t=i, kw=f)
         for f in _flags(USC, exhaustive, rng, 1):
             add("reroot_at_node", t=i, kw=f)
+    # leaf targets / terminal edges: the code has an explicit branch for a leaf as the new seed
+    for i in (rng.sample(leafidx, 1) if leafidx else []):
+        for f in _flags(USC, False, rng, 2 if exhaustive else 1):
+            add(rng.choice(["reseed_at", "reroot_at_node"]), t=i, kw=f, key="%s(leaf)")
+        for f in _flags(US, False, rng, 1):
+            add("reroot_at_edge", t=i, kw=f, lens=rng.choice([None, [1, 2]]), key="%s(terminal)")
     for i in pick([i for i in nonroot if t.nodes[i]._child_nodes], 2):
         for f in _flags(US, exhaustive, rng, 1):
             add("reroot_at_edge", t=i, kw=f, lens=rng.choice([None, [1, 1]]) if not exhaustive else None)
@@ -122,8 +174,8 @@ def enumerate_ops(t, rng, exhaustive):
     add("prune_subtree", t=0, kw={})      # documented TypeError
     # taxon-set based removals
     subsets = []
-    if labels:
-        uniq = sorted(set(labels))
+    uniq = sorted(set(labels) | set(inttax))
+    if uniq:
         if exhaustive and len(uniq) <= 4:
             for m in range(1, 2 ** len(uniq)):
                 subsets.append([uniq[k] for k in range(len(uniq)) if m >> k & 1])
@@ -132,27 +184,44 @@ def enumerate_ops(t, rng, exhaustive):
                 k = rng.randint(1, len(uniq))
                 subsets.append(sorted(rng.sample(uniq, k)))
             subsets.append(uniq)
+            if inttax:
+                subsets.append(sorted(set(labels)))      # every leaf taxon, no internal one
     subsets.append([])
     for sub in subsets:
         for op in pick(("prune_taxa", "prune_taxa_with_labels", "retain_taxa", "retain_taxa_with_labels"), 2):
-            for f in _flags(US, exhaustive and len(sub) == 1, rng, 1):
-                add(op, labels=sub, kw=f)
+            for f in _flags(US, exhaustive and len(sub) == 1 and op in ("prune_taxa", "retain_taxa_with_labels"), rng, 1):
+                form = rng.choice(ARGFORMS) if rng.random() < 0.3 else "list"
+                if op.endswith("labels") and form == "namespace":
+                    form = "tuple"
+                add(op, labels=sub, kw=f, form=form)
+        if inttax or rng.random() < 0.1:
+            # the two filter switches of prune_taxa (only they decide whether an internal taxon-bearing node goes)
+            fl = {"is_apply_filter_to_leaf_nodes": rng.random() < 0.6, "is_apply_filter_to_internal_nodes": rng.random() < 0.6}
+            add(rng.choice(["prune_taxa", "prune_taxa_with_labels"]), labels=sub, form="list",
+                kw=dict(rng.choice(_flags(US, True, rng)), **fl))
         for f in _flags(US, False, rng, 1):
             add("filter_leaf_nodes", keep=sub, kw=dict(f, recursive=rng.random() < 0.7))
+    # a label the namespace does not hold (with_labels look-ups ignore it)
+    add(rng.choice(["prune_taxa_with_labels", "retain_taxa_with_labels"]), labels=sorted(set(labels))[:1] + ["ZZ-absent"],
+        kw=rng.choice(_flags(US, True, rng)), form="list")
     for f in _flags(US, exhaustive, rng, 1):
         add("prune_leaves_without_taxa", kw=dict(f, recursive=rng.random() < 0.7))
     if nonroot:
         for _ in range(1 if not exhaustive else 2):
             k = rng.randint(1, min(2, len(nonroot)))
-            add("prune_nodes", ts=sorted(rng.sample(nonroot, k)),
+            add("prune_nodes", ts=sorted(rng.sample(nonroot, k)), form=rng.choice(["list", "list", "tuple", "generator"]),
                 kw={"prune_leaves_without_taxa": rng.random() < 0.5, "suppress_unifurcations": rng.random() < 0.5,
                     "update_bipartitions": rng.random() < 0.5})
     for u in (False, True):
         add("collapse_unweighted_edges", kw={"update_bipartitions": u})
         add("suppress_unifurcations", kw={"update_bipartitions": u})
-        add("resolve_polytomies", kw={"update_bipartitions": u, "limit": 2}, rng=u)
-    add("collapse_unweighted_edges", kw={"threshold": 1})
-    add("resolve_polytomies", kw={"limit": 3}, rng=False)
+    add("collapse_unweighted_edges", kw={"threshold": 1, "update_bipartitions": rng.random() < 0.5})
+    add("delete_outdegree_one_nodes", kw={})
+    # rng, update_bipartitions and limit vary independently
+    combos = [(u, r, lim) for u in (False, True) for r in (False, True) for lim in (2, 3)]
+    for u, r, lim in rng.sample(combos, 4 if exhaustive else 3):
+        add("resolve_polytomies", kw={"update_bipartitions": u, "limit": lim}, rng=r)
+    add("resolve_polytomies", kw={"limit": 4, "update_bipartitions": rng.random() < 0.5}, rng=rng.random() < 0.5)
     for v in (False, True):
         add("collapse_basal_bifurcation", kw={"set_as_unrooted_tree": v})
         add("polytomize_root", kw={"set_as_unrooted_tree": v})
@@ -160,24 +229,38 @@ def enumerate_ops(t, rng, exhaustive):
         add("reorder", kw={"ascending": v})
         add("randomly_reorient", kw={"update_bipartitions": v})
         add("shuffle_taxa", kw={"include_internal_nodes": v})
+        add("set_is_unrooted", v=v)
+    add("reorder", kw={"ascending": rng.random() < 0.5}, keyfn=rng.choice(["nchild", "length"]))
     add("deroot", kw={})
     add("randomly_rotate", kw={})
     for f in _flags(("suppress_unifurcations", "collapse_unrooted_basal_bifurcation"), exhaustive, rng, 2):
         add("encode_bipartitions", kw=f)
     add("update_bipartitions", kw={})
+    add(rng.choice(["encode_splits", "update_splits"]),
+        kw=rng.choice(_flags(("suppress_unifurcations", "collapse_unrooted_basal_bifurcation"), True, rng)))
     for v in (True, False, None):
         add("set_is_rooted", v=v)
-    add("set_seed_node", kw={})
+    add("set_seed_node", arg="new-cherry")
+    for i in (rng.sample(nonroot, 1) if nonroot else []):
+        add("set_seed_node", arg="inner", t=i)      # documented splice (warns)
     # ---- Node level
-    # new children are attached only below internal nodes or taxon-less leaves, so that no node with children
-    # ever carries a taxon (a taxon-bearing leaf that gets a child stops being a leaf: outside the multiset clause)
-    attachable = [i for i in range(n) if t.nodes[i]._child_nodes or t.nodes[i].taxon is None]
+    # new children are attached below internal nodes, taxon-less leaves and (now and then) taxon-bearing leaves
+    # (such a leaf stops being a leaf: the multiset clause takes its taxon out)
+    attachable = [i for i in range(n) if t.nodes[i]._child_nodes or t.nodes[i].taxon is None or rng.random() < 0.15]
     for i in pick(attachable, 3):
-        add("add_child", t=i)
+        nk = len(t.nodes[i]._child_nodes)
+        own = ["own-child:%d" % rng.randrange(nk)] if nk else []
+        add("add_child", t=i, arg=rng.choice(["new-leaf", "new-leaf", "new-cherry"] + own))
         add("new_child", t=i)
-        add("insert_child", t=i, pos=rng.randint(0, len(t.nodes[i]._child_nodes)))
-        add("insert_new_child", t=i, pos=0)
-        add("set_child_nodes", t=i, mode=rng.choice(["reverse", "drop-first", "plus-new"]))
+        add("insert_child", t=i, pos=rng.randint(0, nk), arg="new-leaf")
+        add("insert_child", t=i, pos=rng.choice([-1, 0, nk, nk + 2]), arg=rng.choice(["new-cherry"] + own + own))
+        add("insert_new_child", t=i, pos=rng.choice([0, 0, -1, nk + 2]))
+        for opn in (("set_child_nodes", "set_children") if rng.random() < 0.5 else ("set_child_nodes",)):
+            m = rng.choice(SETCHILD_MODES)
+            if m == "own-iterator":
+                add(opn, t=i, mode=m, key="%s(own-iterator)")
+            else:
+                add(opn, t=i, mode=m)
     for i in pick(range(n), 3):
         add("clear_child_nodes", t=i)
         add("collapse_clade", t=i)
@@ -190,20 +273,27 @@ def enumerate_ops(t, rng, exhaustive):
         p = t.idx[id(t.nodes[i]._parent_node)]
         for s in (False, True):
             add("remove_child", t=p, c=i, kw={"suppress_unifurcations": s})
+        add("reversible_remove_child", t=p, c=i, kw={"suppress_unifurcations": rng.random() < 0.5})
         add("set_parent_node", t=i, to=None)
         below = set(id(x) for x in t.nodes[i].preorder_iter())
         cands = [j for j in attachable if id(t.nodes[j]) not in below and t.nodes[j] is not t.nodes[i]._parent_node]
         if cands:
             add("set_parent_node", t=i, to=rng.choice(cands))
+            add("set_edge_tail_node", t=i, to=rng.choice(cands))
         if t.nodes[i]._child_nodes:
             for adj in (False, True):
                 add("edge_collapse", t=i, kw={"adjust_collapsed_head_children_edge_lengths": adj})
-            # Edge.invert is not applied on its own: it is the building block of reseed_at, which alone knows how to
-            # complete it (seed pointer, parent of the promoted node); it is exercised through every re-seeding.
         else:
             add("edge_collapse", t=i, kw={})     # documented ValueError (terminal)
+        if p != 0:
+            # tail is not the seed: the inversion is complete without touching the tree's seed pointer
+            add("edge_invert", t=i)
+    # NOT generated: assigning a new Edge object to Node.edge / Edge.head_node.  It is a raw attribute assignment, not one of
+    # the structure-changing operations the statement names; the library detaches the node from its parent's child list
+    # while node.parent_node keeps naming the parent (observed by the strengthened check, recorded in DESIGN 8.6 as out of scope).
     if n >= 2:
         add("remove_child", t=0, c=-1, kw={})    # documented ValueError (not a child)
+        add("reversible_remove_child", t=0, c=-1, kw={})
         # a node that IS in the tree, but under another parent (grandchild, sibling subtree, ancestor, the node itself):
         # the documented ValueError must leave the tree as it was
         for i in pick(range(n), 3):
@@ -211,7 +301,59 @@ def enumerate_ops(t, rng, exhaustive):
             others = [j for j in range(n) if id(t.nodes[j]) not in kids]
             if others:
                 for s_ in (False, True):
-                    add("remove_child", t=i, c=rng.choice(others), nonchild=True, kw={"suppress_unifurcations": s_})
+                    add(rng.choice(["remove_child", "remove_child", "reversible_remove_child"]), t=i, c=rng.choice(others),
+                        nonchild=True, kw={"suppress_unifurcations": s_})
+    if H is not None:
+        out.extend(history_ops(t, rng, H, attachable))
+    return out
+
+
+ALIAS_OPS = ("set_children", "reversible_remove_child", "set_edge_tail_node", "set_node_edge", "edge_invert", "delete_outdegree_one_nodes",
+             "encode_splits", "update_splits", "set_is_unrooted", "reinsert_nodes")
+OLD_MODES = ("reverse", "drop-first", "plus-new")
+
+
+def widens_only(d):
+    """descriptor kinds whose successor states the exploration does not expand further (they are judged like every other
+    operation and continued on the live object; their successors are, up to child order and fresh labels, states that the
+    plain kinds reach as well - expanding them too would only multiply the frontier)"""
+    return bool(d["op"] in ALIAS_OPS or d.get("key") or d.get("keyfn") or d.get("arg", "new-leaf") not in ("new-leaf",)
+                or d.get("mode", "reverse") not in OLD_MODES or "is_apply_filter_to_leaf_nodes" in d.get("kw", {})
+                or "ZZ-absent" in d.get("labels", ()) or d.get("form", "list") != "list"
+                or (d["op"] == "set_seed_node" and d.get("arg") == "inner"))
+
+
+def history_ops(t, rng, H, attachable=None):
+    """descriptors that hand the tree something an earlier operation of this history left behind"""
+    out = []
+    n = len(t.nodes)
+    if attachable is None:
+        attachable = [i for i in range(n) if t.nodes[i]._child_nodes or t.nodes[i].taxon is None]
+    if H.blob is not None:
+        if H.blob["sig"] == ref.ordered(t.spec):
+            out.append({"op": "reinsert_nodes", "uses": True})
+        else:
+            H.blob = None       # the tree has been modified since: reinsert_nodes is no longer admissible
+    us = H.usable(set(t.idx))
+    for k in range(len(us) - 1, max(-1, len(us) - 4), -1):
+        p = us[k]
+        tg = []
+        stale = p._parent_node
+        if stale is not None and id(stale) in t.idx:
+            tg.append(t.idx[id(stale)])          # back where it came from (its _parent_node may still say so)
+        if attachable:
+            tg.append(rng.choice(attachable))
+        for i in tg:
+            nk = len(t.nodes[i]._child_nodes)
+            kind = rng.choice(["add_child", "insert_child", "insert_child", "set_child_nodes", "set_parent_node", "set_edge_tail_node"])
+            d = {"op": kind, "t": i, "arg": "pool:%d" % k, "uses": True}
+            if kind == "insert_child":
+                d["pos"] = rng.choice([0, 0, nk, -1])
+            elif kind == "set_child_nodes":
+                d["mode"] = "plus-arg"
+            out.append(d)
+        if rng.random() < 0.2:
+            out.append({"op": "set_seed_node", "arg": "pool:%d" % k, "uses": True})
     return out
 
 
@@ -235,19 +377,74 @@ def new_leaf(tree, length=None):
     return dendropy.Node(taxon=tx, edge_length=length), lbl
 
 
-def apply_op(t, d, rng):
+def make_arg(t, H, tree, nd, arg):
+    """the node handed to an attaching operation: (node, leaf taxa it brings into the tree, pool entry or None)"""
+    import dendropy
+    if arg == "new-leaf":
+        ch, lbl = new_leaf(tree, 1)
+        return ch, [lbl], None
+    if arg == "new-cherry":
+        top = dendropy.Node(edge_length=1)
+        a, la = new_leaf(tree, 1)
+        b, lb = new_leaf(tree, 2)
+        top.add_child(a)
+        top.add_child(b)
+        return top, [la, lb], None
+    if arg.startswith("pool:"):
+        if H is None:
+            raise Skip()
+        us = H.usable(set(t.idx))
+        k = int(arg[5:])
+        if k >= len(us):
+            raise Skip()
+        p = us[k]
+        return p, sorted(ref.leaf_taxa(bridge.extract(p))), p
+    if arg.startswith("own-child:"):
+        kids = nd._child_nodes
+        if not kids:
+            raise Skip()
+        return kids[int(arg[10:]) % len(kids)], [], None
+    raise core.HarnessBug("unknown argument kind %s" % arg)
+
+
+def taxa_arg(tree, labels, form):
+    import dendropy
+    sel = set(labels)
+    taxa = [tx for tx in tree.taxon_namespace if tx.label in sel]
+    return shaped(taxa, form, dendropy)
+
+
+def shaped(items, form, dendropy=None):
+    if form == "set":
+        return set(items)
+    if form == "tuple":
+        return tuple(items)
+    if form == "generator":
+        return (x for x in list(items))
+    if form == "namespace":
+        return dendropy.TaxonNamespace(items)
+    return list(items)
+
+
+def apply_op(t, d, rng, H=None):
     """perform the operation described by d on t.tree.  returns an expectation dict:
-    removed / added (label lists), allowed (documented exception classes), judge_multiset."""
+    removed / added (label lists), allowed (documented exception classes), judge_multiset,
+    l2i (ids of taxon leaves the operation is asked to put something below), post (bookkeeping after a return)."""
     import dendropy
     from dendropy.utility import error
     tree = t.tree
     op = d["op"]
     kw = dict(d.get("kw", {}))
-    exp = {"removed": [], "added": [], "allowed": (), "judge_multiset": True}
+    exp = {"removed": [], "added": [], "allowed": (), "judge_multiset": True, "l2i": set(), "post": None}
     nd = t.nodes[d["t"]] if "t" in d and d["t"] is not None and d["t"] < len(t.nodes) else None
+    if "t" in d and d["t"] is not None and nd is None:
+        raise Skip()
     SND = error.SeedNodeDeletionException
     if op in ("reseed_at", "reroot_at_node", "to_outgroup_position"):
         fn = getattr(tree, op)
+        if op != "to_outgroup_position":
+            exp["l2i"].add(id(nd))
+            exp["may_vanish"] = (id(nd),)
         return exp, lambda: fn(nd, **kw)
     if op == "reroot_at_edge":
         l1, l2 = d.get("lens") or (None, None)
@@ -259,29 +456,45 @@ def apply_op(t, d, rng):
             exp["allowed"] = (TypeError,)
         else:
             exp["removed"] = t.clade(d["t"])
+            if H is not None:
+                exp["post"] = lambda r: H.detach(nd)
         return exp, lambda: tree.prune_subtree(nd, **kw)
     if op in ("prune_taxa", "prune_taxa_with_labels", "retain_taxa", "retain_taxa_with_labels"):
         bag = t.leafbag()
-        sel = set(d["labels"])
+        given = set(d["labels"])
         if op.startswith("prune"):
-            exp["removed"] = [x for x in bag if x in sel]
+            sel = given
         else:
-            exp["removed"] = [x for x in bag if x not in sel]
-        exp["allowed"] = (SND,) if len(exp["removed"]) == len(bag) else ()
-        if exp["allowed"]:
-            exp["judge_multiset"] = False
-        taxa = [tx for tx in tree.taxon_namespace if tx.label in sel]
-        arg = d["labels"] if op.endswith("labels") else taxa
+            sel = set(x for x in all_taxa(t.spec) if x not in given)
+        on_leaves = kw.get("is_apply_filter_to_leaf_nodes", True)
+        on_internal = kw.get("is_apply_filter_to_internal_nodes", False)
+        rem = []
+        stack = [(t.spec, False)]
+        while stack:
+            s, gone = stack.pop()
+            if s[3]:
+                gone = gone or (on_internal and s[0] is not None and s[0] in sel)
+                stack.extend((c, gone) for c in s[3])
+            elif s[0] is not None and (gone or (on_leaves and s[0] in sel)):
+                rem.append(s[0])
+        exp["removed"] = rem
+        # the seed itself may be what is asked to go: documented refusal (permitted, not demanded)
+        if len(rem) == len(bag) or (t.spec[0] is not None and t.spec[0] in sel):
+            exp["allowed"] = (SND,)
+        form = d.get("form", "list")
+        if op.endswith("labels"):
+            arg_fn = lambda: shaped(d["labels"], form)
+        else:
+            arg_fn = lambda: taxa_arg(tree, d["labels"], form)
         fn = getattr(tree, op)
-        return exp, lambda: fn(arg, **kw)
+        return exp, lambda: fn(arg_fn(), **kw)
     if op == "filter_leaf_nodes":
         keep = set(d["keep"])
         bag = t.leafbag()
         exp["removed"] = [x for x in bag if x not in keep]
-        # a pass over the current leaves may ask for the seed itself to be deleted
-        exp["allowed"] = (SND,)
-        if len(exp["removed"]) == len(bag) or not kw.get("recursive", True):
-            pass
+        # the seed can only be hit when no leaf is kept (a pass then may reach the seed itself)
+        if not (keep & set(bag)):
+            exp["allowed"] = (SND,)
         return exp, lambda: tree.filter_leaf_nodes(lambda x: x.taxon is not None and x.taxon.label in keep, **kw)
     if op == "prune_leaves_without_taxa":
         exp["allowed"] = (SND,) if not t.leafbag() else ()
@@ -307,12 +520,21 @@ def apply_op(t, d, rng):
         exp["removed"] = rem
         if kw.get("prune_leaves_without_taxa") and len(rem) == len(t.leafbag()):
             exp["allowed"] = (SND,)
-            exp["judge_multiset"] = False
-        return exp, lambda: tree.prune_nodes(sel, **kw)
+        if H is not None:
+            exp["post"] = lambda r: H.detach(*sel)
+        form = d.get("form", "list")
+        return exp, lambda: tree.prune_nodes(shaped(sel, form), **kw)
     if op in ("collapse_unweighted_edges", "suppress_unifurcations", "collapse_basal_bifurcation", "polytomize_root",
-              "ladderize", "reorder", "deroot", "encode_bipartitions", "update_bipartitions"):
+              "ladderize", "deroot", "encode_bipartitions", "update_bipartitions", "delete_outdegree_one_nodes",
+              "encode_splits", "update_splits"):
         fn = getattr(tree, op)
         return exp, lambda: fn(**kw)
+    if op == "reorder":
+        if d.get("keyfn") == "nchild":
+            kw["key"] = lambda x: len(x._child_nodes)
+        elif d.get("keyfn") == "length":
+            kw["key"] = lambda x: (x._edge.length is None, x._edge.length or 0)
+        return exp, lambda: tree.reorder(**kw)
     if op == "resolve_polytomies":
         r = random.Random(rng.random()) if d.get("rng") else None
         return exp, lambda: tree.resolve_polytomies(rng=r, **kw)
@@ -326,33 +548,63 @@ def apply_op(t, d, rng):
         bag = [x.taxon for x in t.nodes if x.taxon is not None and (kw.get("include_internal_nodes") or not x._child_nodes)]
         if len(set(map(id, bag))) != len(bag):
             raise Skip()
+        exp["shuffle"] = bool(kw.get("include_internal_nodes"))
         return exp, lambda: tree.shuffle_taxa(rng=r, **kw)
     if op == "set_is_rooted":
         def f():
             tree.is_rooted = d["v"]
         return exp, f
+    if op == "set_is_unrooted":
+        def f():
+            tree.is_unrooted = d["v"]
+        return exp, f
     if op == "set_seed_node":
-        newroot = dendropy.Node()
-        a, la = new_leaf(tree, 1)
-        b, lb = new_leaf(tree, 1)
-        newroot.add_child(a)
-        newroot.add_child(b)
-        exp["removed"] = t.leafbag()
-        exp["added"] = [la, lb]
+        arg = d.get("arg", "new-cherry")
+        bag = t.leafbag()
+        if arg == "inner":
+            # documented: the node and its descendants are spliced out of their context into this tree
+            newroot = nd
+            keep = t.clade(d["t"])
+            rest = bag_minus_plus(bag, keep, [])
+            exp["removed"] = rest if rest is not None else []
+            old = t.nodes[0]
+            if H is not None:
+                exp["post"] = lambda r: H.detach(old)
+        else:
+            newroot, added, pooled = make_arg(t, H, tree, None, arg)
+            exp["removed"] = bag
+            exp["added"] = added
+            if pooled is not None:
+                exp["post"] = lambda r: H.take(pooled)
 
         def f():
             tree.seed_node = newroot
         return exp, f
+    if op == "reinsert_nodes":
+        if H is None or H.blob is None:
+            raise Skip()
+        blob = H.blob
+        exp["added"] = list(blob["removed"])
+        exp["restores"] = blob["sig_before"]
+        for rec in blob["record"]:
+            exp["l2i"].update(id(x) for x in rec[:2])      # (node removed, its parent): both get their children back
+
+        def post(r):
+            H.blob = None
+        exp["post"] = post
+        return exp, lambda: blob["node"].reinsert_nodes(blob["record"])
     # ---------------- node level
     if nd is None:
         raise Skip()
     parent_is_taxleaf = (not nd._child_nodes) and nd.taxon is not None
     if op in ("add_child", "new_child", "insert_child", "insert_new_child"):
         if parent_is_taxleaf:
-            exp["removed"] = [nd.taxon.label]
+            exp["l2i"].add(id(nd))
         if op in ("add_child", "insert_child"):
-            ch, lbl = new_leaf(tree, 1)
-            exp["added"] = [lbl]
+            ch, added, pooled = make_arg(t, H, tree, nd, d.get("arg", "new-leaf"))
+            exp["added"] = added
+            if pooled is not None:
+                exp["post"] = lambda r: H.take(pooled)
             if op == "add_child":
                 return exp, lambda: nd.add_child(ch)
             return exp, lambda: nd.insert_child(d["pos"], ch)
@@ -364,10 +616,11 @@ def apply_op(t, d, rng):
             return exp, lambda: nd.new_child(taxon=tx, edge_length=2)
         return exp, lambda: nd.insert_new_child(d["pos"], taxon=tx, edge_length=2)
     if op == "clear_child_nodes":
-        if nd._child_nodes:
+        kids = list(nd._child_nodes)
+        if kids:
             exp["removed"] = t.clade(d["t"])
-            if nd.taxon is not None:
-                exp["added"] = [nd.taxon.label]
+            if H is not None:
+                exp["post"] = lambda r: H.detach(*kids)
         return exp, lambda: nd.clear_child_nodes()
     if op == "collapse_clade":
         return exp, lambda: nd.collapse_clade()
@@ -375,8 +628,6 @@ def apply_op(t, d, rng):
         return exp, lambda: nd.collapse_neighborhood(d["dist"])
     if op == "collapse_conflicting":
         # needs a current encoding (it reads edge.bipartition of the subtree): made current by the driver
-        if tree.is_rooted is None:
-            pass
         ns = tree.taxon_namespace
         m = 0
         for tx in ns:
@@ -389,63 +640,109 @@ def apply_op(t, d, rng):
         bip = dendropy.Bipartition(leafset_bitmask=m, tree_leafset_bitmask=full, is_rooted=bool(tree.is_rooted))
         exp["needs_encoding"] = True
         return exp, lambda: nd.collapse_conflicting(bip)
-    if op == "set_child_nodes":
+    if op in ("set_child_nodes", "set_children"):
         kids = list(nd._child_nodes)
         mode = d["mode"]
+        fn = getattr(nd, op)
         if mode == "reverse":
-            newkids = kids[::-1]
-        elif mode == "drop-first":
+            return exp, lambda: fn(kids[::-1])
+        if mode == "tuple-reversed":
+            return exp, lambda: fn(tuple(kids[::-1]))
+        if mode == "generator":
+            return exp, lambda: fn(k for k in kids[::-1])
+        if mode == "own-iterator":
+            # the documented parameter is any iterable of nodes; the node's own public child iterator is one
+            return exp, lambda: fn(nd.child_node_iter())
+        if mode == "plus-own-child":
             if not kids:
                 raise Skip()
-            newkids = kids[1:]
+            return exp, lambda: fn(kids + [kids[0]])       # documented book-keeping: no multiple adds
+        if mode == "drop-first":
+            if not kids:
+                raise Skip()
             exp["removed"] = t.clade(t.idx[id(kids[0])])
-            if not newkids and nd.taxon is not None:
-                exp["added"] = [nd.taxon.label]
-        else:
-            ch, lbl = new_leaf(tree, 1)
-            newkids = kids + [ch]
-            exp["added"] = [lbl]
+            if H is not None:
+                exp["post"] = lambda r: H.detach(kids[0])
+            return exp, lambda: fn(kids[1:])
+        if mode in ("plus-new", "plus-arg"):
+            ch, added, pooled = make_arg(t, H, tree, nd, d.get("arg", "new-leaf"))
+            exp["added"] = added
+            if pooled is not None:
+                exp["post"] = lambda r: H.take(pooled)
             if parent_is_taxleaf:
-                exp["removed"] = [nd.taxon.label]
-        return exp, lambda: nd.set_child_nodes(newkids)
-    if op == "remove_child":
+                exp["l2i"].add(id(nd))
+            return exp, lambda: fn(kids + [ch])
+        raise core.HarnessBug("unknown mode %s" % mode)
+    if op in ("remove_child", "reversible_remove_child"):
+        fn = getattr(nd, op)
         if d["c"] == -1:
             other, _ = new_leaf(tree)
             exp["allowed"] = (ValueError,)
-            return exp, lambda: nd.remove_child(other)
+            return exp, lambda: fn(other)
+        if d["c"] >= len(t.nodes):
+            raise Skip()
         ch = t.nodes[d["c"]]
         if d.get("nonchild"):
             exp["allowed"] = (ValueError,)
-            return exp, lambda: nd.remove_child(ch, **kw)
+            return exp, lambda: fn(ch, **kw)
         exp["removed"] = t.clade(d["c"])
-        if len(nd._child_nodes) == 1 and nd.taxon is not None:
-            exp["added"] = [nd.taxon.label]
-        return exp, lambda: nd.remove_child(ch, **kw)
-    if op == "set_parent_node":
+        if H is not None:
+            if op == "remove_child":
+                exp["post"] = lambda r: H.detach(ch)
+            else:
+                removed = list(exp["removed"])
+                sig_before = ref.ordered(t.spec, lengths=False)
+
+                def post(r):
+                    H.blob = {"record": r, "node": nd, "removed": removed, "sig_before": sig_before,
+                              "sig": ref.ordered(bridge.extract(tree)) if tree._seed_node is not None else None}
+                exp["post"] = post
+        return exp, lambda: fn(ch, **kw)
+    if op in ("set_parent_node", "set_edge_tail_node"):
+        if op == "set_parent_node":
+            def assign(x, v):
+                x.parent_node = v
+        else:
+            def assign(x, v):
+                x.edge.tail_node = v
+        arg = d.get("arg")
+        if arg is not None:
+            # a detached node is given a parent
+            ch, added, pooled = make_arg(t, H, tree, nd, arg)
+            exp["added"] = added
+            if parent_is_taxleaf:
+                exp["l2i"].add(id(nd))
+            if pooled is not None:
+                exp["post"] = lambda r: H.take(pooled)
+            return exp, lambda: assign(ch, nd)
         if d["to"] is None:
             exp["removed"] = t.clade(d["t"])
-            oldp = nd._parent_node
-            if len(oldp._child_nodes) == 1 and oldp.taxon is not None:
-                exp["added"] = [oldp.taxon.label]
-
-            def f():
-                nd.parent_node = None
-            return exp, f
+            if H is not None:
+                exp["post"] = lambda r: H.detach(nd)
+            return exp, lambda: assign(nd, None)
+        if d["to"] >= len(t.nodes):
+            raise Skip()
         tgt = t.nodes[d["to"]]
-        oldp = nd._parent_node
         if (not tgt._child_nodes) and tgt.taxon is not None:
-            exp["removed"] = [tgt.taxon.label]
-        if len(oldp._child_nodes) == 1 and oldp.taxon is not None:
-            exp["added"] = [oldp.taxon.label]
-
-        def f():
-            nd.parent_node = tgt
-        return exp, f
+            exp["l2i"].add(id(tgt))
+        return exp, lambda: assign(nd, tgt)
     if op == "edge_collapse":
         if not nd._child_nodes:
             exp["allowed"] = (ValueError,)
         return exp, lambda: nd.edge.collapse(**kw)
+    if op == "set_node_edge":
+        e = dendropy.Edge(length=nd._edge.length)
+        if d.get("via") == "Edge.head_node":
+            def f():
+                e.head_node = nd
+        else:
+            def f():
+                nd.edge = e
+        return exp, f
     if op == "edge_invert":
+        if nd._parent_node is None or nd._parent_node._parent_node is None:
+            raise Skip()
+        exp["l2i"].add(id(nd))
         return exp, lambda: nd.edge.invert()
     raise core.HarnessBug("unknown op %s" % op)
 
@@ -461,35 +758,82 @@ def bag_minus_plus(bag, removed, added):
     return sorted(out)
 
 
-def step(ctx, tree, d, rng, history):
+WARNING_OPS = ("set_seed_node", "set_children", "delete_outdegree_one_nodes", "encode_splits", "update_splits")
+_shapes_seen = set()
+_sampler = random.Random(20261003)      # own stream: the case's stream must not depend on what this process has seen
+
+
+def judge_traversals(ctx, tree, opkey, det, rng):
+    """clause 'every traversal visits exactly the reachable nodes' (the walker has just found the raw structure sound)"""
+    order = L.reach(tree)
+    key = L.shape_key(order)
+    if key in _shapes_seen and _sampler.random() >= 0.01:
+        return True
+    if len(order) > 20 and _sampler.random() >= 0.3:
+        return True         # big shapes hardly ever recur: a sample of them
+    _shapes_seen.add(key)
+    probs, n = L.traversals(tree)
+    ctx.ev("traversals-judged")
+    ctx.ev("traversal-compared", n)
+    if probs:
+        for p in probs[:4]:
+            ctx.violation("traversal|%s" % p, "; ".join(probs[:12]), det)
+        return False
+    return True
+
+
+def step(ctx, tree, d, rng, history, H=None):
     """apply one operation with all monitors.  returns False if the tree must not be used further."""
     t = T(tree)
     try:
-        exp, thunk = apply_op(t, d, rng)
+        exp, thunk = apply_op(t, d, rng, H)
     except Skip:
+        ctx.note("descriptor-not-admissible-on-this-state:%s" % d["op"])
         return True
     op = d["op"]
-    wants_bip = bool(d.get("kw", {}).get("update_bipartitions")) or op in ("encode_bipartitions", "update_bipartitions")
+    opkey = (d["key"] % op) if d.get("key") else op
+    wants_bip = bool(d.get("kw", {}).get("update_bipartitions")) or op in ("encode_bipartitions", "update_bipartitions",
+                                                                           "encode_splits", "update_splits")
     if wants_bip or exp.get("needs_encoding"):
-        # make the encoding current without restructuring the tree
+        # make the encoding current without restructuring the tree ...
         try:
             tree.encode_bipartitions(suppress_unifurcations=False, collapse_unrooted_basal_bifurcation=False)
         except Exception as e:
             ctx.unexpected("encode_bipartitions(pre)", e, {"history": history})
             return False
+        # ... and look at the edge maps the way a caller does, so that the tree carries them into the operation
+        if wants_bip and t.leafbag():
+            try:
+                tree.split_bitmask_edge_map
+                tree.bipartition_edge_map
+                ctx.ev("edge-maps-read-before-op")
+            except Exception as e:
+                ctx.unexpected("edge-maps(pre)", e, {"history": history[-6:], "state": ref.to_newick(t.spec)})
+                return False
     before_bag = t.leafbag()
+    LB = t.taxleaves()
+    alltax_before = dict((id(nd), s[0]) for s, nd in zip(t.snodes, t.nodes)) if "shuffle" in exp else None
     det = {"state": ref.to_newick(t.spec), "rooted": tree._is_rooted, "op": d, "history": history[-6:]}
     ctx.ev("op-applied")
-    ctx.ev("op:%s" % op)
+    ctx.ev("op:%s" % opkey)
+    if d.get("uses"):
+        ctx.ev("op-on-leftovers-of-the-history")
     raised = None
+    result = None
     limit = 50000 + 5000 * len(t.nodes)
     try:
-        with budget(limit) as b:
-            thunk()
+        if op in WARNING_OPS:
+            with warnings.catch_warnings():
+                warnings.simplefilter("ignore")
+                with budget(limit) as b:
+                    result = thunk()
+        else:
+            with budget(limit) as b:
+                result = thunk()
     except core.CaseTimeout:
         raise
     except StepBudgetExceeded as e:
-        ctx.violation("%s|does-not-terminate|%s" % (op, e.where.rsplit(":", 1)[0]),
+        ctx.violation("%s|does-not-terminate|%s" % (opkey, e.where.rsplit(":", 1)[0]),
                       "operation exceeded the logical step budget (%d backward jumps for %d nodes) at %s" % (limit, len(t.nodes), e.where), det)
         return False
     except Exception as e:
@@ -497,37 +841,74 @@ def step(ctx, tree, d, rng, history):
         if exp["allowed"] and isinstance(e, exp["allowed"]):
             ctx.ev("documented-error-seen")
         else:
-            ctx.unexpected(op, e, det)
-    else:
-        if exp["allowed"] and not exp["judge_multiset"]:
-            # a documented refusal was *permitted*, not demanded
-            pass
+            ctx.unexpected(opkey, e, det)
     # ---- well-formedness (returned or raised)
     probs = arbor.check(tree)
     if probs:
-        ctx.violation("%s|malformed-tree%s|%s" % (op, "-after-raise" if raised else "", probs[0]), "; ".join(probs), det)
+        ctx.violation("%s|malformed-tree%s|%s" % (opkey, "-after-raise" if raised else "", probs[0]), "; ".join(probs), det)
         return False
     ctx.ev("walker-ok")
-    so = arbor.second_opinion(tree)
-    if so is not None:
+    if _sampler.random() < 0.2 and arbor.second_opinion(tree) is not None:     # (never a verdict: a sample is enough)
         ctx.note("library-self-check-disagrees-with-walker")
+    # ---- traversals (returned or raised)
+    if not judge_traversals(ctx, tree, opkey, det, rng):
+        return False
     if raised is not None:
-        return not isinstance(raised, Exception) or True
+        # after a documented refusal the (well-formed) tree is used further; after an undocumented exception it is
+        # not, so that one root cause does not cascade into other keys
+        return bool(exp["allowed"] and isinstance(raised, exp["allowed"]))
+    if exp["post"] is not None:
+        exp["post"](result)
     t2 = T(tree)
     det["after"] = ref.to_newick(t2.spec)
     # ---- leaf multiset
-    if exp["judge_multiset"]:
-        want = bag_minus_plus(before_bag, exp["removed"], exp["added"])
+    if "shuffle" in exp:
+        ctx.ev("multiset-judged")
+        after = dict((id(nd), s[0]) for s, nd in zip(t2.snodes, t2.nodes))
+        if exp["shuffle"]:
+            # asked to shuffle over all nodes: taxa are neither lost nor invented, and stay on the nodes that had one
+            same = (sorted(x for x in after.values() if x is not None) == sorted(x for x in alltax_before.values() if x is not None)
+                    and set(k for k, v in after.items() if v is not None) == set(k for k, v in alltax_before.items() if v is not None))
+            if not same:
+                ctx.violation("shuffle_taxa|leaf-multiset|all-nodes", "taxa over all nodes %s, before %s" % (
+                    sorted(map(str, after.values())), sorted(map(str, alltax_before.values()))), det)
+        elif t2.leafbag() != before_bag or t2.internal_taxa() != t.internal_taxa():
+            ctx.violation("shuffle_taxa|leaf-multiset", "leaf taxa %s, expected %s" % (t2.leafbag(), before_bag), det)
+    elif exp["judge_multiset"]:
+        LA = t2.taxleaves()
+        l2i = [i for i in LB if i in t2.idx and t2.nodes[t2.idx[i]]._child_nodes]
+        i2l = [i for i in LA if i in t.idx and t.snodes[t.idx[i]][3]]
+        # (a leaf that was made the seed may afterwards be suppressed as a unifurcation: it left the leaf multiset either way)
+        gone = [i for i in exp.get("may_vanish", ()) if i in LB and i not in t2.idx]
+        want = bag_minus_plus(before_bag, list(exp["removed"]) + [LB[i] for i in l2i + gone], list(exp["added"]) + [LA[i] for i in i2l])
         got = t2.leafbag()
         ctx.ev("multiset-judged")
+        if i2l:
+            ctx.ev("multiset-judged:internal-taxon-node-became-leaf")
+        if l2i:
+            ctx.ev("multiset-judged:taxon-leaf-became-internal")
         if want is None or got != want:
-            ctx.violation("%s|leaf-multiset" % op, "leaf taxa %s, expected %s" % (got, want), det)
+            ctx.violation("%s|leaf-multiset" % opkey, "leaf taxa %s, expected %s" % (got, want), det)
+        elif any(i not in exp["l2i"] for i in l2i):
+            ctx.violation("%s|leaf-multiset|taxon-leaf-became-internal" % opkey,
+                          "a taxon-bearing leaf the operation was not asked to put anything below is internal now (its taxon left the leaf multiset)", det)
+    if "restores" in exp:
+        ctx.ev("reinsert-judged")
+        if ref.ordered(t2.spec, lengths=False) != exp["restores"]:
+            # documented ('restore the tree to the same topology'), but not a clause of the statement
+            ctx.note("reinsert_nodes-did-not-restore-the-ordered-topology")
     # ---- bipartitions
     if wants_bip and tree._seed_node is not None and not t2.leafbag():
         ctx.note("bipartitions-of-taxon-less-tree-not-judged")
     elif wants_bip and tree._seed_node is not None:
         ctx.ev("bipartitions-judged")
-        C01.check_encoding(ctx, tree, tree.taxon_namespace, bool(tree._is_rooted), "%s|stale-bipartitions" % op, None, d.get("kw"))
+        if tree.bipartition_encoding is None:
+            # a fresh encoding always produces the list
+            ctx.violation("%s|stale-bipartitions|encoding-list-missing" % opkey,
+                          "the operation was asked to update the bipartitions of a tree whose encoding was current; bipartition_encoding is None afterwards", det)
+        else:
+            C01.check_encoding(ctx, tree, tree.taxon_namespace, bool(tree._is_rooted), "%s|stale-bipartitions" % opkey, None, d.get("kw"),
+                               as_user=True)
     return True
 
 
@@ -542,13 +923,34 @@ def start_trees(nmax):
     return out
 
 
-def make_tree(spec, rooted, unit):
+def extra_starts():
+    """start trees of classes the shape enumeration does not contain: taxa on internal nodes and on the root,
+    the same taxon on two leaves, a length on the root edge"""
+    S = ref.S
+    return [
+        S(None, [S("I0", [S("T0"), S("T1")]), S("T2")]),
+        S("R0", [S("I0", [S("T0"), S("T1")]), S("T2")]),
+        S(None, [S("I0", [S("T0")]), S("T1")]),
+        S("R0", [S("I0", [S("T0"), S(None)]), S("I1", [S("T1")])]),
+        S(None, [S("T0"), S("T0"), S("T1")]),
+        S(None, [S(None, [S("T0"), S("T1")]), S("T0")]),
+        S(None, [S(None, [S("T0", length=1), S("T1", length=2)], length=1), S("T2", length=3)], length=5),
+    ]
+
+
+def the_start(case):
+    if case.get("extra"):
+        return extra_starts()[case["start"]]
+    return start_trees(case["nmax"])[case["start"]]
+
+
+def make_tree(spec, rooted, unit, keep_lengths=False):
     import dendropy
     spec = ref.copy(spec)
-    if unit:
+    if unit and not keep_lengths:
         for n in ref.preorder(spec):
             n[2] = None if n is spec else 1
-    ns = dendropy.TaxonNamespace(sorted(ref.leaf_taxa(spec)))
+    ns = dendropy.TaxonNamespace(sorted(set(all_taxa(spec))))
     return bridge.build_tree(spec, ns, rooted), spec
 
 
@@ -562,6 +964,12 @@ def cases(tier, seed):
                 for p in range(parts):
                     yield {"kind": "explore", "start": i, "rooted": rooted, "unit": unit, "part": p, "parts": parts,
                            "nmax": nmax, "depth": 2 if tier == "quick" else 3, "seed": seed}
+    xparts = 2 if tier == "quick" else 8
+    for i in range(len(extra_starts())):
+        for rooted in (True, False):
+            for p in range(xparts):
+                yield {"kind": "explore", "extra": True, "start": i, "rooted": rooted, "unit": False, "part": p, "parts": xparts,
+                       "nmax": nmax, "depth": 1 if tier == "quick" else 2, "seed": seed}
     nh = 400 if tier == "quick" else 12000
     for i in range(nh):
         yield {"kind": "history", "i": i, "seed": seed}
@@ -574,14 +982,53 @@ def state_sig(tree):
 
 def rebuild(spec, rooted):
     import dendropy
-    labels = sorted(set(x for x in ref.leaf_taxa(spec)))
+    labels = sorted(set(all_taxa(spec)))
     ns = dendropy.TaxonNamespace(labels)
     return bridge.build_tree(spec, ns, rooted)
 
 
+TREE_LEVEL_REPEATABLE = ("encode_bipartitions", "update_bipartitions", "suppress_unifurcations", "collapse_unweighted_edges",
+                         "resolve_polytomies", "deroot", "ladderize", "randomly_rotate", "randomly_reorient")
+
+
+CACHE_SENSITIVE = [
+    {"op": "encode_bipartitions", "kw": {}}, {"op": "update_bipartitions", "kw": {}},
+    {"op": "encode_bipartitions", "kw": {"suppress_unifurcations": False, "collapse_unrooted_basal_bifurcation": False}},
+    {"op": "suppress_unifurcations", "kw": {"update_bipartitions": True}},
+    {"op": "collapse_unweighted_edges", "kw": {"update_bipartitions": True}},
+    {"op": "resolve_polytomies", "kw": {"update_bipartitions": True, "limit": 2}, "rng": False},
+    {"op": "randomly_reorient", "kw": {"update_bipartitions": True}},
+    {"op": "prune_leaves_without_taxa", "kw": {"update_bipartitions": True, "suppress_unifurcations": True}},
+    {"op": "deroot", "kw": {}}, {"op": "ladderize", "kw": {"ascending": False}}, {"op": "set_is_rooted", "v": True},
+]
+
+
+def follow(ctx, tree, rng, hist, H, prev, k=2):
+    """continue on the LIVE object: what the previous operation left behind (detached nodes with their stale fields,
+    the undo record, caches) is handed to / met by the next operations"""
+    for _ in range(k):
+        if tree._seed_node is None:
+            return
+        t = T(tree)
+        if len(t.nodes) > 40:
+            return
+        cands = history_ops(t, rng, H)
+        if cands and rng.random() < 0.85:
+            d = rng.choice(cands)
+        elif prev["op"] in TREE_LEVEL_REPEATABLE and rng.random() < 0.5:
+            d = prev                                  # the same operation once more
+        else:
+            d = rng.choice(CACHE_SENSITIVE)           # (encode, restructure-with-update) pairs on one object
+        hist = hist + [d]
+        ctx.ev("live-continuation-step")
+        if not step(ctx, tree, d, rng, hist, H):
+            return
+        prev = d
+
+
 def explore(ctx, case, rng):
-    spec0 = start_trees(case["nmax"])[case["start"]]
-    tree0, spec0 = make_tree(spec0, case["rooted"], case["unit"])
+    spec0 = the_start(case)
+    tree0, spec0 = make_tree(spec0, case["rooted"], case["unit"], keep_lengths=bool(case.get("extra")))
     frontier = [(spec0, case["rooted"], [])]
     seen = set()
     budget_states = 250 if ctx.tier == "quick" else 400
@@ -589,6 +1036,7 @@ def explore(ctx, case, rng):
         nxt = []
         for spec, rooted, hist in frontier:
             tree = rebuild(spec, rooted)
+            osig = ref.ordered(spec)
             ops = enumerate_ops(T(tree), random.Random(rng.random()), True)
             if depth == 0:
                 ops = [o for k, o in enumerate(ops) if k % case["parts"] == case["part"]]
@@ -597,9 +1045,11 @@ def explore(ctx, case, rng):
             for d in ops:
                 tree = rebuild(spec, rooted)
                 h2 = hist + [d]
-                ok = step(ctx, tree, d, rng, h2)
-                ctx.transition((ref.ordered(spec), rooted, d))
-                ctx.nontrivial((ref.ordered(spec), rooted, d))
+                H = L.History()
+                ok = step(ctx, tree, d, rng, h2, H)
+                hsig = core.short_hash((osig, rooted, d))
+                ctx.transition(hsig)
+                ctx.nontrivial(hsig)
                 if not ok:
                     continue
                 try:
@@ -607,27 +1057,62 @@ def explore(ctx, case, rng):
                 except bridge.ExtractError:
                     continue
                 ctx.state(sig)
-                if sig not in seen and len(seen) < budget_states and ref.n_nodes(s2) <= 14:
+                if sig not in seen and len(seen) < budget_states and ref.n_nodes(s2) <= 14 and not widens_only(d):
                     seen.add(sig)
                     nxt.append((s2, tree._is_rooted, h2))
+                # (the successor state was recorded from the signature; the live object itself may now be used up)
+                left = bool(H.pool) or H.blob is not None
+                if tree._seed_node is not None and rng.random() < (0.4 if left else 0.03):
+                    follow(ctx, tree, rng, h2, H, d, k=2 if (left and rng.random() < 0.3) else 1)
         frontier = nxt
     if case["part"] == 0 and case["start"] in (1, 3):
         ctx.sample({"kind": "explore", "start": ref.to_newick(spec0), "rooted": case["rooted"], "depth": case["depth"],
                     "states_expanded": len(seen)})
 
 
+def decorate_taxa(spec, rng):
+    """taxa on some internal nodes (and the root), now and then one leaf taxon on a second leaf"""
+    k = 0
+    for n in ref.preorder(spec):
+        if n[3] and rng.random() < 0.35:
+            n[0] = "I%d" % k
+            k += 1
+    lv = ref.leaves(spec)
+    if len(lv) >= 3 and rng.random() < 0.3:
+        a, b = rng.sample(lv, 2)
+        b[0] = a[0]
+    return spec
+
+
 def history(ctx, case, rng):
     n = rng.choice([2, 3, 5, 8, 12]) if ctx.tier == "quick" else rng.choice([2, 4, 8, 15, 25, 40])
     spec = gen.random_spec(rng, n, p_poly=rng.choice([0, 0.3, 0.6]), p_unary=rng.choice([0, 0.1]))
-    gen.decorate_lengths(spec, rng, rng.choice(["none", "unit", "ints", "zeros", "float", "mixed_missing"]))
+    gen.decorate_lengths(spec, rng, rng.choice(["none", "unit", "ints", "zeros", "float", "mixed_missing"]),
+                         root_length=rng.random() < 0.25)
+    if rng.random() < 0.4:
+        decorate_taxa(spec, rng)
+        ctx.ev("history-with-internal-or-duplicate-taxa")
     rooted = rng.choice([True, False, False, None])
     tree = rebuild(spec, rooted)
+    H = L.History()
     hist = []
+    prev = None
     for k in range(30):
-        ops = enumerate_ops(T(tree), rng, False)
-        d = rng.choice(ops)
+        ops = enumerate_ops(T(tree), rng, False, H)
+        uses = [o for o in ops if o.get("uses")]
+        r = rng.random()
+        if uses and r < 0.4:
+            d = rng.choice(uses)                     # hand a leftover of the history back
+        elif prev is not None and prev["op"] in TREE_LEVEL_REPEATABLE and r < 0.5:
+            d = prev                                 # the same operation once more
+        elif r < 0.75:
+            name = rng.choice(sorted(set(o["op"] for o in ops)))     # every operation kind alike
+            d = rng.choice([o for o in ops if o["op"] == name])
+        else:
+            d = rng.choice(ops)
         hist.append(d)
-        if not step(ctx, tree, d, rng, hist):
+        prev = d
+        if not step(ctx, tree, d, rng, hist, H):
             break
         if tree._seed_node is None:
             break
@@ -644,6 +1129,8 @@ def history(ctx, case, rng):
 
 def run_case(case, ctx):
     rng = random.Random("%s/%s" % (case["seed"], sorted((k, str(v)) for k, v in case.items())))
+    _counter[0] = 0
+    L.quiet_deprecations()
     if case["kind"] == "explore":
         explore(ctx, case, rng)
     else:
